@@ -1,0 +1,77 @@
+//go:build verif
+
+package connectconformance
+
+// Contracts for the server batch runner (C11), server_runner.go.
+//
+// Outcomes live in results.outcomes (grow-only, under results.mu). sendOK[name] is a ghost
+// set by the contract of clientRunner.sendRequest: the request was accepted by the client
+// multiplexer, which then owes its callback exactly one invocation (C10); the callback
+// (checked separately below) records an outcome under the name it is invoked with.
+
+//@ ghost sendOK: string -> bool
+//@ func clientRunner.sendRequest
+//@   trusted
+//@   requires arg1 != nil && arg2 != nil
+//@   modifies sendOK
+//@   ensures result == nil ==> sendOK == old(sendOK)[arg1.TestName := true]
+//@   ensures result != nil ==> sendOK == old(sendOK)
+
+// a started process has a controller and its pipes (stderr only when asked for)
+//@ ghost startedProc: int -> *process
+//@ func processStarter
+//@   trusted
+//@   modifies startedProc
+//@   ensures (result_1 == nil) == (result_0 != nil)
+//@   ensures result_0 != nil ==> fresh(result_0) && result_0.processController != nil && result_0.stdin != nil && result_0.stdout != nil && (arg2 ==> result_0.stderr != nil) && startedProc[0] == result_0
+
+// the process-exit hook only cancels the process context
+//@ func runTestCasesForServer$1
+//@   requires procCancel != nil
+//@   modifies nothing
+
+// the goroutine that reads the reference server's stderr (specified further below)
+//@ func runTestCasesForServer$2
+//@   requires refServerFinished != nil && !chanClosed[refServerFinished] && serverProcess != nil && serverProcess.stderr != nil
+//@   requires wfResults(results) && errPrinter != nil && testCaseNameSet != nil
+//@   modifies held, map[string]string, chanClosed, rdPos
+//@   ensures chanClosed[refServerFinished]
+//@   //# attribution: a line is recorded as feedback only under a name of this batch and only in the form "name: message"; anything else non-empty is passed through
+//@   assert_at "results.recordSideband(parts[0], parts[1])": has(testCaseNameSet, parts[0]) && str == parts[0] + ": " + parts[1]
+//@   assert_at "errPrinter.PrefixPrintf(": !isSideband && str != ""
+//@   loop 0: invariant r != nil && !chanClosed[refServerFinished]
+
+//@ elemvalues []*conformancev1.TestCase: v != nil && v.Request != nil
+
+// Every case of the batch ends with an outcome, or was accepted by the client multiplexer
+// (whose callback will record one): never silently missing. If the server cannot be started,
+// cannot be configured, answers with garbage or omits the certificate under TLS, all cases
+// are recorded through failedToStart (setup errors).
+//@ func runTestCasesForServer
+//@   requires wfResults(results) && startServer != nil && client != nil && logPrinter != nil && errPrinter != nil && ctx != nil
+//@   requires (forall i int :: 0 <= i && i < len(testCases) ==> testCases[i] != nil && testCases[i].Request != nil) && len(testCases) <= 1073741824
+//@   modifies held, atomicI32, map[string]testOutcome, sendOK, startedProc, chanClosed, selWait, wrOut, wireFmt, rdPos, mapof(tracer.Tracer.traces), tracer.Tracer.traces,
+//@            map[string]struct{}, map[string]string, []*conformancev1.Header, conformancev1.ClientCompatRequest.*, conformancev1.ServerCompatResponse.*, conformancev1.ClientCompatResponse.*, conformancev1.RawHTTPRequest.Headers
+//@   ensures @accounted forall i int :: 0 <= i && i < len(testCases) ==>
+//@        has(results.outcomes, testCases[i].Request.TestName) || sendOK[testCases[i].Request.TestName]
+//@   loop 0: invariant testCaseNameSet != nil && fresh(testCaseNameSet)
+//@   loop 1: invariant forall k int :: 0 <= k && k <= rangeindex ==> sendOK[testCases[k].Request.TestName]
+//@   loop 2: invariant i <= j && j <= len(testCases)
+//@           invariant forall k int :: i <= k && k < j ==> has(results.outcomes, testCases[k].Request.TestName)
+//@           invariant forall k int :: 0 <= k && k < i ==> sendOK[testCases[k].Request.TestName]
+//@   loop 3: invariant i <= j && j <= len(testCases)
+//@           invariant forall k int :: i <= k && k < j ==> has(results.outcomes, testCases[k].Request.TestName)
+//@           invariant forall k int :: 0 <= k && k < i ==> sendOK[testCases[k].Request.TestName]
+
+// The completion callback handed to the client multiplexer: whatever it is invoked with, it
+// records exactly one outcome, under the name it is invoked with: a setup error for a
+// multiplexer error, a failure for a client-reported error, the verdict of assert for a
+// result, and a failure for a response that has neither.
+//@ func runTestCasesForServer$3
+//@   requires wfResults(results) && logPrinter != nil && testCase != nil && testCase.Request != nil && req != nil
+//@   requires err == nil ==> resp != nil
+//@   requires resp != nil ==> (typeis(resp.Result, *conformancev1.ClientCompatResponse_Error) ==> unbox(resp.Result, *conformancev1.ClientCompatResponse_Error) != nil) &&
+//@        (typeis(resp.Result, *conformancev1.ClientCompatResponse_Response) ==> unbox(resp.Result, *conformancev1.ClientCompatResponse_Response) != nil) //# oneof wrappers of a decoded message are never nil pointers
+//@   modifies held, atomicI32, map[string]testOutcome, map[string]string, *[]error
+//@   ensures @recorded has(results.outcomes, name)
+//@   ensures @setup err != nil ==> results.outcomes[name].setupError && results.outcomes[name].actualFailure == err
